@@ -38,6 +38,7 @@ func checkC14(c *Ctx, r *Report) {
 	readThenDispatch(c, r, "C14.R1.read-then-dispatch")
 	errorBeforeSuccess(c, r, "C14.R2.error-before-success", "a message cut inside that field decodes: it reaches the handler instead of being answered with FORMERR or reported to the invalid-message callback", []string{"unpackQuestion", "unpackRRslice", "unpackMsgHdr", "Msg.unpack", "unpackHeader", "UnpackRRWithHeader"})
 	borrow(c, r, c08R5, "C08.R5.escape-skip", "C14.R6.escape-skip", 1, "escapedNameLen steps over a whole \\DDD escape", nil, "a reply whose names carry such escapes is measured too long: Truncate drops records that fit and sets TC for nothing (or too short, and the packed reply exceeds the limit)")
+	round12(c, r, "C14")
 }
 
 func isHandlerInvoke(in ssa.Instruction) bool {
